@@ -215,6 +215,10 @@ def _cy_castptr(elem, x):
 
 def _cy_ptr(a, idx):
     """&a[i, j, ...]: the flat view of the buffer of `a` that starts at that element and runs to the end of the buffer"""
+    if a is None:
+        # a typed memoryview argument that was passed None (Cython accepts it; with nonecheck=False `&x[0]` is then a pointer nobody may
+        # dereference): stays None here, so that any later use raises instead of reading garbage
+        return None
     if not isinstance(a, np.ndarray):
         a = np.asarray(a)
     if not isinstance(idx, tuple):
